@@ -73,6 +73,7 @@ class World(object):
                     def mid(broker, _i=i):
                         return "mid%d" % _i
                     mid.__name__ = mid.__qualname__ = "mid%d" % i
+                    mid.__symx_order__ = 100 + 10 * i + len(deps)
                     ctxs = [CTX[c] for c in cs]
                     m = plugins.datasource(ctxs if len(ctxs) > 1 else ctxs[0])(mid)
                     deps.append(m)
@@ -93,6 +94,7 @@ class World(object):
                     raise SkipComponent()
                 return None
             impl.__name__ = "rp"
+            impl.__symx_order__ = 10 + i
             ds = plugins.datasource(*deps)(impl)
             cls = sf.SpecSetMeta("I%d" % i, (S,), {"rp": ds, "__module__": __name__})
             w.impls.append(ds)
